@@ -2625,7 +2625,7 @@ avx_rule_addusl_slow (OrcCompiler *p, void *user, OrcInstruction *insn)
     orc_avx_emit_paddd (p, tmp, tmp2, tmp);
 
     orc_avx_emit_psrad_imm (p, 31, tmp, tmp);
-    orc_avx_emit_paddd (p, dest, src1, dest);
+    orc_avx_emit_paddd (p, src0, src1, dest);
     orc_avx_emit_por (p, dest, tmp, dest);
   } else {
     orc_avx_sse_emit_pand (p, src0, src1, tmp);
@@ -2635,7 +2635,7 @@ avx_rule_addusl_slow (OrcCompiler *p, void *user, OrcInstruction *insn)
     orc_avx_sse_emit_paddd (p, tmp, tmp2, tmp);
 
     orc_avx_sse_emit_psrad_imm (p, 31, tmp, tmp);
-    orc_avx_sse_emit_paddd (p, dest, src1, dest);
+    orc_avx_sse_emit_paddd (p, src0, src1, dest);
     orc_avx_sse_emit_por (p, dest, tmp, dest);
   }
 }
@@ -3005,11 +3005,11 @@ avx_rule_convssslw_avx2 (OrcCompiler *p, void *user, OrcInstruction *insn)
   const int size = p->vars[insn->src_args[0]].size << p->loop_shift;
 
   if (size >= 32) {
-    orc_avx_emit_packssdw (p, dest, src, dest);
+    orc_avx_emit_packssdw (p, src, src, dest);
     // full interleave required again
     orc_avx_emit_permute4x64_imm (p, ORC_AVX_SSE_SHUF(3, 1, 2, 0), dest, dest);
   } else {
-    orc_avx_emit_packssdw (p, dest, src, dest);
+    orc_avx_emit_packssdw (p, src, src, dest);
   }
 }
 
@@ -3022,11 +3022,11 @@ avx_rule_convsuslw_avx2 (OrcCompiler *p, void *user, OrcInstruction *insn)
   const int size = p->vars[insn->src_args[0]].size << p->loop_shift;
 
   if (size >= 32) {
-    orc_avx_emit_packusdw (p, dest, src, dest);
+    orc_avx_emit_packusdw (p, src, src, dest);
     // full interleave required again
     orc_avx_emit_permute4x64_imm (p, ORC_AVX_SSE_SHUF(3, 1, 2, 0), dest, dest);
   } else {
-    orc_avx_sse_emit_packusdw (p, dest, src, dest);
+    orc_avx_sse_emit_packusdw (p, src, src, dest);
   }
 }
 
